@@ -13,7 +13,7 @@ pub fn property() -> Property {
     Property {
         id: "C03",
         level: "exploration",
-        rule: "Bounded-exhaustive matrix: 4 methods (GET, HEAD, POST, PURGE) x 12 status codes x 19 Content-Length configurations (absent, valid, repeated equal, disagreeing, negative, empty, non-numeric, > 64 bit, ...) x 11 Transfer-Encoding configurations x {no extra bytes, extra bytes after the frame} (x 3 segmentations in thorough). The bytes after the head are chosen so that every framing interpretation (empty / chunked / length n / close) yields a different, recognisable body; the reference decision list is written from the statement. Oracle: delivered body == the body of the expected framing, or the exchange fails when the statement says it must. Non-trivial: every case (a decision is exercised); distinct = hash of the head + body wire + segmentation.",
+        rule: "Bounded-exhaustive matrix: 4 methods (GET, HEAD, POST, PURGE) x 12 status codes x 19 Content-Length configurations (absent, valid, repeated equal, disagreeing, negative, empty, non-numeric, > 64 bit, ...) x 11 Transfer-Encoding configurations x {no extra bytes, extra bytes after the frame} (x 3 segmentations in thorough). The bytes after the head are chosen so that every framing interpretation (empty / chunked / length n / close) yields a different, recognisable body; the reference decision list is written from the statement. Oracle: delivered body == the body of the expected framing, or the exchange fails when the statement says it must. Followed redirects (301/302/303/307/308) x 8 Content-Length configurations: an unusable length on the redirect response fails the exchange before a second request is made. Non-trivial: every case (a decision is exercised); distinct = hash of the head + body wire + segmentation.",
         assumptions: &[
             "gray combinations are executed but not judged: chunked not last in the Transfer-Encoding list, invalid Content-Length next to chunked, list-valued or sign-prefixed Content-Length, invalid Content-Length on a response that has no body anyway",
         ],
